@@ -12,6 +12,7 @@
 use grex_sim::episode::*;
 use grex_sim::exec::*;
 use grex_sim::model::*;
+use grex_sim::model::install_quiet_panic_hook;
 use grex_sim::prng::*;
 use grex_sim::validate;
 use grex_sim::workload::*;
@@ -404,6 +405,30 @@ fn mode_replay(args: &[String]) -> i32 {
             return 2;
         }
     };
+    if let Ok(text) = std::fs::read_to_string(&path) {
+        if let Ok(v) = serde_json::from_str::<Value>(&text) {
+            if v["kind"] == "hashsweep" {
+                let key = match v["key"].as_str().and_then(Key::decode) {
+                    Some(k) => k,
+                    None => {
+                        println!("HARNESS-ERROR bad key in replay file");
+                        return 2;
+                    }
+                };
+                let seeds: Vec<u64> = v["hash_seeds"].as_array().map(|a| a.iter().filter_map(|x| x.as_str().and_then(|s| s.parse().ok())).collect()).unwrap_or_default();
+                let outs: Vec<Outcome> = seeds.iter().map(|s| fresh_golden(&key, *s).unwrap_or(Outcome::Panic("<golden-one failed>".into()))).collect();
+                for (sd, o) in seeds.iter().zip(outs.iter()) {
+                    println!("  hash seed {} -> {}", sd, o.short());
+                }
+                if outs.windows(2).any(|w| w[0] != w[1]) {
+                    println!("REPLAY-VIOLATION class=hash_seed_dependence key={}", key.encode());
+                    return 1;
+                }
+                println!("REPLAY-OK no violation reproduced");
+                return 0;
+            }
+        }
+    }
     let (_, runs) = match load_replay(&path) {
         Ok(x) => x,
         Err(e) => {
@@ -706,6 +731,190 @@ fn mode_minimise(args: &[String]) -> i32 {
 // driver
 // ---------------------------------------------------------------------------------------
 
+// ---------------------------------------------------------------------------------------
+// systematic hash-seed sweep: small worlds enumerated completely, every key under K hash-key streams
+// ---------------------------------------------------------------------------------------
+
+fn subsets(items: &[String], min: usize, max: usize) -> Vec<Vec<String>> {
+    let n = items.len();
+    let mut out = vec![];
+    fn rec(items: &[String], start: usize, cur: &mut Vec<String>, min: usize, max: usize, out: &mut Vec<Vec<String>>) {
+        if cur.len() >= min {
+            out.push(cur.clone());
+        }
+        if cur.len() == max {
+            return;
+        }
+        for i in start..items.len() {
+            cur.push(items[i].clone());
+            rec(items, i + 1, cur, min, max, out);
+            cur.pop();
+        }
+    }
+    let _ = n;
+    rec(items, 0, &mut vec![], min, max, &mut out);
+    out
+}
+
+fn words_over(alpha: &[&str], max_len: usize) -> Vec<String> {
+    let mut out: Vec<String> = vec![];
+    let mut layer: Vec<String> = vec![String::new()];
+    for _ in 0..max_len {
+        let mut next = vec![];
+        for w in &layer {
+            for a in alpha {
+                next.push(format!("{}{}", w, a));
+            }
+        }
+        out.extend(next.iter().cloned());
+        layer = next;
+    }
+    out
+}
+
+fn cfg_with(f: impl Fn(&mut Cfg)) -> Cfg {
+    let mut c = Cfg::default();
+    f(&mut c);
+    c
+}
+
+/// The keys of the sweep: (world name, keys).
+fn hashsweep_keys(tier: &str) -> Vec<(&'static str, Vec<Key>)> {
+    let mut worlds = vec![];
+    // W2: head x digit x tail grids: every subset, class conversion on (the latin squares live here)
+    let mut grid = vec![];
+    for h in ["a", "b"] {
+        for m in ["1", "2"] {
+            for t in ["xx", "yy"] {
+                grid.push(format!("{}{}{}", h, m, t));
+            }
+        }
+    }
+    let cfgs2 = vec![
+        cfg_with(|c| c.digits = true),
+        cfg_with(|c| {
+            c.digits = true;
+            c.repetitions = true
+        }),
+        cfg_with(|c| c.words = true),
+        cfg_with(|c| c.non_digits = true),
+        cfg_with(|c| {
+            c.digits = true;
+            c.no_start = true;
+            c.no_end = true
+        }),
+    ];
+    let mut k2 = vec![];
+    for set in subsets(&grid, 2, 8) {
+        for c in &cfgs2 {
+            k2.push(Key { set: set.iter().cloned().collect(), cfg: c.clone() });
+        }
+    }
+    worlds.push(("grid{a,b}x{1,2}x{xx,yy}: all subsets x 5 class configurations", k2));
+    // W1: all words over {a,b} up to length 3, sets of up to 3 (quick) / 4 (thorough)
+    let w = words_over(&["a", "b"], 3);
+    let cfgs1 = vec![
+        Cfg::default(),
+        cfg_with(|c| c.repetitions = true),
+        cfg_with(|c| {
+            c.repetitions = true;
+            c.min_len = 2
+        }),
+        cfg_with(|c| {
+            c.no_start = true;
+            c.no_end = true
+        }),
+        cfg_with(|c| {
+            c.repetitions = true;
+            c.no_start = true;
+            c.no_end = true
+        }),
+    ];
+    let mut k1 = vec![];
+    for set in subsets(&w, 1, if tier == "thorough" { 4 } else { 3 }) {
+        for c in &cfgs1 {
+            k1.push(Key { set: set.iter().cloned().collect(), cfg: c.clone() });
+        }
+    }
+    worlds.push(("words over {a,b} up to length 3: all small sets x 5 configurations", k1));
+    if tier == "thorough" {
+        // W3: all 4-element sets of words over {a,b} up to length 4, repetition conversion
+        let w4 = words_over(&["a", "b"], 4);
+        let c = cfg_with(|c| c.repetitions = true);
+        let k3 = subsets(&w4, 4, 4)
+            .into_iter()
+            .map(|set| Key { set: set.into_iter().collect(), cfg: c.clone() })
+            .collect();
+        worlds.push(("words over {a,b} up to length 4: all 4-element sets, repetition conversion", k3));
+    }
+    worlds
+}
+
+fn build_on_fresh_thread(key: &Key, hash_seed: u64) -> Outcome {
+    let k = key.clone();
+    std::thread::Builder::new()
+        .stack_size(8 << 20)
+        .spawn(move || {
+            set_hash_stream(hash_seed);
+            k.golden()
+        })
+        .map(|h| h.join().unwrap_or(Outcome::Panic("<thread died>".into())))
+        .unwrap_or(Outcome::Panic("<spawn failed>".into()))
+}
+
+/// Every key of every world is built under `streams` different hash-key streams (a fresh thread each, so
+/// that std draws fresh keys); all outcomes of a key must be equal. Returns (builds, keys, first violation).
+fn hash_sweep(tier: &str, verif_seed: u64, jobs: usize) -> (u64, u64, Vec<Value>, Option<Value>) {
+    let streams: u64 = if tier == "thorough" { 6 } else { 4 };
+    let worlds = hashsweep_keys(tier);
+    let mut world_stats = vec![];
+    let mut builds = 0u64;
+    let mut nkeys = 0u64;
+    let mut first: Option<Value> = None;
+    for (name, keys) in worlds {
+        let keys = Arc::new(keys);
+        let next = Arc::new(AtomicUsize::new(0));
+        let viol: Arc<Mutex<Vec<(usize, Value)>>> = Arc::new(Mutex::new(vec![]));
+        let mut hs = vec![];
+        for _ in 0..jobs {
+            let (keys, next, viol) = (keys.clone(), next.clone(), viol.clone());
+            hs.push(std::thread::spawn(move || loop {
+                let i = next.fetch_add(1, Ordering::SeqCst);
+                if i >= keys.len() {
+                    break;
+                }
+                let key = &keys[i];
+                let s0 = derive(verif_seed, &[0x4853, i as u64, 0]);
+                let base = build_on_fresh_thread(key, s0);
+                for j in 1..streams {
+                    let sj = derive(verif_seed, &[0x4853, i as u64, j]);
+                    let o = build_on_fresh_thread(key, sj);
+                    if o != base {
+                        viol.lock().unwrap().push((
+                            i,
+                            json!({"class": "hash_seed_dependence", "key": key.encode(), "hash_seeds": [s0.to_string(), sj.to_string()],
+                                   "observed": o.to_json(), "expected": base.to_json()}),
+                        ));
+                        break;
+                    }
+                }
+            }));
+        }
+        for h in hs {
+            let _ = h.join();
+        }
+        builds += keys.len() as u64 * streams;
+        nkeys += keys.len() as u64;
+        let mut v = viol.lock().unwrap().clone();
+        v.sort_by_key(|(i, _)| *i);
+        world_stats.push(json!({"world": name, "keys": keys.len(), "hash_streams_per_key": streams, "violations": v.len()}));
+        if first.is_none() {
+            first = v.first().map(|(_, x)| x.clone());
+        }
+    }
+    (builds, nkeys, world_stats, first)
+}
+
 fn spawn_worker(verif_seed: u64, tier: &str, index: u64, n_sys: u64, sample: bool, timeout_s: u64) -> Result<Value, String> {
     let exe = std::env::current_exe().map_err(|e| e.to_string())?;
     let mut cmd = Command::new(exe);
@@ -980,6 +1189,30 @@ fn mode_run(args: &[String]) -> i32 {
     }
     violations.sort_by_key(|(i, _, _)| *i);
 
+    // ---- systematic hash-seed sweep (in this process: the driver owns its getrandom too) -------------
+    set_hash_stream(MAIN_HASH_SEED);
+    install_quiet_panic_hook();
+    let (sweep_builds, sweep_keys, sweep_worlds, sweep_violation) = if has_flag(args, "--no-hash-sweep") {
+        (0, 0, vec![], None)
+    } else {
+        hash_sweep(&tier, verif_seed, jobs)
+    };
+    let mut sweep_line: Option<String> = None;
+    if let Some(v) = &sweep_violation {
+        std::fs::create_dir_all(&replay_dir).ok();
+        let path = format!("{}/C10-hashsweep-seed{}.json", replay_dir, verif_seed);
+        let file = json!({
+            "property": "C10", "engine": "simhist", "kind": "hashsweep", "key": v["key"], "hash_seeds": v["hash_seeds"],
+            "violation": v, "how_to_replay": "/verif/check --replay <this file>",
+        });
+        std::fs::write(&path, serde_json::to_string_pretty(&file).unwrap()).ok();
+        println!("simhist: hash-seed sweep violation: {}", v);
+        sweep_line = Some(format!(
+            "VIOLATION-JSON {}",
+            json!({"property": "C10", "replay": path, "class": "hash_seed_dependence", "signature": format!("hash_seed_dependence|{}", v["key"].as_str().unwrap_or(""))})
+        ));
+    }
+
     // ---- violations → minimise → replay file ----------------------------------------
     let mut exit = 0;
     let mut violation_lines = vec![];
@@ -1083,6 +1316,7 @@ fn mode_run(args: &[String]) -> i32 {
             "keys_seen_in_more_than_one_process": cross_process_keys,
             "cross_process_mismatches": cross_process_mismatches,
             "keys_audited_in_fresh_process": audited.load(Ordering::SeqCst),
+            "hash_seed_sweep": {"builds": sweep_builds, "keys": sweep_keys, "worlds": sweep_worlds, "exhaustive_within_worlds": true},
             "determinism_double_runs": doubles.len(),
             "history_probes": {
                 "build_after_build": agg.get("build_after_build"),
@@ -1124,6 +1358,11 @@ fn mode_run(args: &[String]) -> i32 {
     for l in violation_lines {
         println!("{}", l);
     }
+    if let Some(l) = sweep_line {
+        println!("{}", l);
+        exit = 1;
+    }
+    println!("simhist: hash-seed sweep: {} keys, {} builds", sweep_keys, sweep_builds);
     exit
 }
 
